@@ -320,7 +320,7 @@ Proof.
     rewrite (Hkeep n) in Hl by congruence. apply (HNc n f Hl). }
   destruct (Hfin dm Hpfx) as (HDm & Hcand).
   split.
-  - right. split; [exact Hcl|]. right. right. split; [exact Hf|]. split; [exact Hr|].
+  - right. split; [exact Hcl|]. right. split; [exact Hf|]. split; [exact Hr|].
     apply (RV_intro2 c nb' wm wc (sh (e_disk ec)) d' nom).
     + eapply LInv_mono; [exact Hnb|apply LInv_sh; exact HL].
     + rewrite (sp_of_sh_clean c nb wc _ HL). exact Hsp.
@@ -574,7 +574,7 @@ Proof.
   assert (HL' : Live c nb' w d' defer') by (eapply Live_mono; [exact Hnb|exact Hid|]; eapply Live_deq; eauto).
   pose proof (sp_of_sh_deq d d' Hq) as Hsp'. rewrite Hsp in Hsp'.
   split.
-  - right. split; [exact Hcl|]. right. right. split; [reflexivity|]. split; [exact Hrot|].
+  - right. split; [exact Hcl|]. right. split; [reflexivity|]. split; [exact Hrot|].
     apply (RV_ext c nb' w (set_failed w)); [reflexivity|reflexivity|]. rewrite <- Hsp'. eapply RV_of_live; exact HL'.
   - apply (live_RD c nb' w d' alts defer' HL'). rewrite Hsp'. exact Hin.
 Qed.
